@@ -1,5 +1,5 @@
 (* Properties/C10.v — C10: absolute and idle session timeouts. *)
-From AS Require Import Base.Str Oidc.Types Store.Spec Store.Memory Store.Redis Proofs.PStore Proofs.PRedis.
+From AS Require Import Base.Str Oidc.Types Store.Spec Store.Memory Store.Redis Proofs.PStore Proofs.PRedis Proofs.P10b Http.Cookie Oidc.Prog Oidc.Handler Oidc.Spec.
 
 (* the memory store's rule: a session is alive exactly while now <= created+abs and now <= last use+idle *)
 Theorem C10_memory_rule_band :
@@ -57,6 +57,28 @@ Theorem C10_redis_store_follows_its_rule :
     snd (rrun abs idle parses [] h) = map ROk (snd (arun (alive_redis abs idle) aempty h)).
 Proof. intros. eapply redis_refines_spec_from_empty; eassumption. Qed.
 Print Assumptions C10_redis_store_follows_its_rule.
+
+(* the same at the level of VERDICTS: the handler run on top of the abstract map (which both store models refine) gives
+   an OK only for a session that the map holds and that is alive under the store's rule at the clock of the check -
+   hence inside the absolute and the idle limit *)
+Theorem C10_ok_only_if_alive :
+  forall alive c db now r m env h tr m',
+    run_on alive (process c db now r) m now env = Some (OAllow h, tr, m') ->
+    exists s, m (request_sid c r) = Some s /\ alive s now = true.
+Proof. exact ok_only_if_alive. Qed.
+Print Assumptions C10_ok_only_if_alive.
+
+Theorem C10_ok_within_timeouts :
+  forall abs idle c db now r m env h tr m',
+    (run_on (alive_mem abs idle) (process c db now r) m now env = Some (OAllow h, tr, m') ->
+     exists s, m (request_sid c r) = Some s /\
+       ((0 < abs)%Z -> (now <= s_added s + abs)%Z) /\ ((0 < idle)%Z -> (now <= s_last s + idle)%Z)) /\
+    ((0 <= abs)%Z -> (0 <= idle)%Z ->
+     run_on (alive_redis abs idle) (process c db now r) m now env = Some (OAllow h, tr, m') ->
+     exists s, m (request_sid c r) = Some s /\
+       ((0 < abs)%Z -> (now < s_added s + abs)%Z) /\ ((0 < idle)%Z -> (now < s_last_data s + idle)%Z)).
+Proof. intros. split; [apply ok_within_timeouts_memory | apply ok_within_timeouts_redis]. Qed.
+Print Assumptions C10_ok_within_timeouts.
 
 Example C10_example_absolute_not_extended_by_activity :
   let t := {| t_id := "j"; t_access := ""; t_refresh := ""; t_expiry := 0 |} in
